@@ -24,8 +24,9 @@ from .state import (
     State,
     exc_isa,
 )
+from .omap import OMapMixin, View
 from .stmts import StmtMixin
-from .types import SV, TBool, TInt, TOpt, TRec, TRef, TSeq, TStr, Ty, Unsupported, lift, TReal, TBytes, TKey
+from .types import SV, TBool, TInt, TOMap, TOpt, TRec, TRef, TSeq, TStr, Ty, Unsupported, lift, TReal, TBytes, TKey
 
 EXTERN_HANDLERS: dict = {}
 
@@ -43,7 +44,7 @@ def _typing_cast(engine, args, kwargs, node, self_expr):
     return args[1]
 
 
-class Interp(StmtMixin, ExprMixin, CallMixin, BuiltinMixin, EngineBase):
+class Interp(StmtMixin, ExprMixin, CallMixin, BuiltinMixin, OMapMixin, EngineBase):
     merge_enabled = not bool(__import__('os').environ.get('PYVC_NOMERGE'))
     want_seq_comprehension = False
     comp_only_images = False  # the converse characterisation of interned comprehensions (prone to matching loops)
@@ -72,7 +73,16 @@ class Interp(StmtMixin, ExprMixin, CallMixin, BuiltinMixin, EngineBase):
     def truth(self, v):
         if isinstance(v, _EmptySet):
             return False
+        if isinstance(v, SV) and isinstance(v.ty, TOMap):
+            return v.length() > 0
         return super().truth(v)
+
+    def branch(self, cond):
+        if self.in_quant is not None and not isinstance(cond, bool):
+            c = z3.simplify(cond.t)
+            if not (z3.is_true(c) or z3.is_false(c)):
+                raise Unsupported("control flow depends on the element inside a comprehension over a symbolic collection")
+        return super().branch(cond)
 
     def contains(self, container, x):
         if isinstance(container, _EmptySet):
